@@ -41,3 +41,78 @@ Theorem C01_merge_reapplies_deletes : forall evs s k m,
   /\ root_live_count (introduce_merge_root m (root s)) = root_live_count (root s).
 Proof. exact merge_reapplies_deletes. Qed.
 Print Assumptions C01_merge_reapplies_deletes.
+
+(* Upsidedown side (Kv/Upsidedown.v transcribes UpsideDownCouch.Batch / mergeOldAndNew / deleteSingle /
+   batchRows): for every history of batches run from the empty store the row store is exactly the
+   rows of the last-write-wins replay — back index rows, term-frequency rows, stored rows (with
+   array positions), dictionary counts, docCount, internal rows. *)
+From Verif Require Import Kv.Adapter Kv.Upsidedown Kv.UpsidedownProofs.
+
+Theorem C01_udc_refines_replay : forall (docof : Z -> Z -> udoc) (h : list hstep),
+  Forall step_ok h -> docs_ok docof h -> hist_small h ->
+  let s := udc_run docof h in
+  let live := replay (map fst h) in
+  (forall id, rget (u_rows s) (KBack id) = option_map (fun v => doc_back_val (docof id v)) (live id))
+  /\ (forall f t id, rget (u_rows s) (KTerm f t id) =
+        match live id with Some v => option_map VTerm (term_freq (docof id v) f t) | None => None end)
+  /\ (forall id f p, rget (u_rows s) (KStored id f p) =
+        match live id with Some v => option_map VStored (stored_val (docof id v) f p) | None => None end)
+  /\ (forall l, NoDup l -> (forall d, In d l <-> live d <> None) ->
+        (forall f t, dict_count (u_rows s) f t = Z.of_nat (length (filter (live_has docof live f t) l)))
+        /\ u_count s = Z.of_nat (length l))
+  /\ (forall key, rget (u_rows s) (KInternal key) = option_map VInternal (spec_internal (flat_map snd h) key))
+  /\ NoDup (map fst (u_rows s)).
+Proof. exact udc_refines_replay. Qed.
+Print Assumptions C01_udc_refines_replay.
+
+Theorem C01_udc_live_ids_exist : forall (docof : Z -> Z -> udoc) (h : list hstep),
+  Forall step_ok h -> docs_ok docof h -> hist_small h ->
+  exists l, NoDup l /\ (forall d, In d l <-> replay (map fst h) d <> None).
+Proof. exact udc_live_ids_exist. Qed.
+Print Assumptions C01_udc_live_ids_exist.
+
+Theorem C01_udc_collapse_step_ok : forall (raw : list (list (Z * option Z) * list (Z * option Z))),
+  Forall step_ok (map (fun st => (collapse (fst st), collapse (snd st))) raw).
+Proof. exact collapse_step_ok. Qed.
+Print Assumptions C01_udc_collapse_step_ok.
+
+Theorem C01_udc_doc_ids_spec : forall (docof : Z -> Z -> udoc) (h : list hstep),
+  Forall step_ok h -> docs_ok docof h -> hist_small h ->
+  NoDup (udc_doc_ids (udc_run docof h))
+  /\ (forall id, In id (udc_doc_ids (udc_run docof h)) <-> replay (map fst h) id <> None).
+Proof. exact udc_doc_ids_spec. Qed.
+Print Assumptions C01_udc_doc_ids_spec.
+
+Theorem C01_udc_document_spec : forall (docof : Z -> Z -> udoc) (h : list hstep) id,
+  Forall step_ok h -> docs_ok docof h -> hist_small h ->
+  match replay (map fst h) id with
+  | None => udc_document (udc_run docof h) id = None
+  | Some v => exists l, udc_document (udc_run docof h) id = Some l
+                        /\ NoDup (map fst l)
+                        /\ (forall f p x, In (f, p, x) l <-> In (f, p, x) (d_stored (docof id v)))
+  end.
+Proof. exact udc_document_spec. Qed.
+Print Assumptions C01_udc_document_spec.
+
+Theorem C01_udc_doc_count_spec : forall (docof : Z -> Z -> udoc) (h : list hstep) l,
+  Forall step_ok h -> docs_ok docof h -> hist_small h ->
+  NoDup l -> (forall d, In d l <-> replay (map fst h) d <> None) ->
+  udc_doc_count (udc_run docof h) = Z.of_nat (length l).
+Proof. exact udc_doc_count_spec. Qed.
+Print Assumptions C01_udc_doc_count_spec.
+
+Theorem C01_udc_get_internal_spec : forall (docof : Z -> Z -> udoc) (h : list hstep) key,
+  Forall step_ok h -> docs_ok docof h -> hist_small h ->
+  udc_get_internal (udc_run docof h) key = spec_internal (flat_map snd h) key.
+Proof. exact udc_get_internal_spec. Qed.
+Print Assumptions C01_udc_get_internal_spec.
+
+(* Index / Delete / SetInternal / DeleteInternal outside a batch = one-operation batches *)
+Theorem C01_udc_single_ops : forall s,
+  0 <= u_count s < two64 ->
+  (forall id d, udc_update s id d = udc_batch s [(id, Some d)] [])
+  /\ (forall id, udc_delete s id = udc_batch s [(id, None)] [])
+  /\ (forall k v, udc_set_internal s k v = udc_batch s [] [(k, Some v)])
+  /\ (forall k, udc_delete_internal s k = udc_batch s [] [(k, None)]).
+Proof. exact udc_single_ops. Qed.
+Print Assumptions C01_udc_single_ops.
